@@ -162,6 +162,8 @@ pub enum TokFault {
     TextRemoveRange { at: usize, n: usize },
     /// text-level: duplicate the `n` characters starting at `at` in place
     TextDupRange { at: usize, n: usize },
+    /// append a copy of the `n` characters that start `back` characters before the end
+    TextAppendCopy { back: usize, n: usize },
     /// text-level: drop the last `n` characters
     TextDropBack { n: usize },
     /// text-level: add a segment ".xxxx" at the end
@@ -490,6 +492,15 @@ pub fn apply_tok_fault(d: &mut Delivered, f: &TokFault) -> bool {
                 changed = true;
             }
         }
+        TokFault::TextAppendCopy { back, n } => {
+            let chars: Vec<char> = d.text.chars().collect();
+            if *n >= 1 && *back >= *n && *back <= chars.len() {
+                let from = chars.len() - back;
+                let dup: String = chars[from..from + n].iter().collect();
+                d.text.push_str(&dup);
+                changed = true;
+            }
+        }
         TokFault::TextDropBack { n } => {
             let chars: Vec<char> = d.text.chars().collect();
             if *n >= 1 && *n <= chars.len() {
@@ -550,6 +561,7 @@ impl TokFault {
             TokFault::TextDropBack { .. } => "text-drop-tail",
             TokFault::TextRemoveRange { .. } => "text-remove-range",
             TokFault::TextDupRange { .. } => "text-dup-range",
+            TokFault::TextAppendCopy { .. } => "text-append-copy",
             TokFault::TextExtraSegment { .. } => "text-extra-segment",
             TokFault::TextTrailingDot => "text-trailing-dot",
             TokFault::TextHeaderCase => "text-header-case",
